@@ -1,5 +1,5 @@
 from vcommon import Suite
-from upload_common import rewrite_upload_imports
+from upload_common import rewrite_upload_imports, rewrite_upload_fault
 
 SPEC = {
     "id": "C07",
@@ -12,7 +12,14 @@ SPEC = {
               extra_args=["c07"],
               rule="each case is one scenario: a telemetry directory with count files written by the real counter "
                    "library (1-3 program builds x 1-3 weeks; active and expired; without counters; truncated, "
-                   "damaged, random and empty files; same-week files with different begins; optional leftover "
+                   "damaged, random and empty files; same-week files with different begins; in 55 % of the scenarios an "
+                   "IDENTITY GROUP: 2-4 files of one report week whose program identities differ from a base identity "
+                   "in exactly ONE of the five fields Program (another last path element, or the same one under another "
+                   "directory: count-file names that differ in the date only) / Version / GoVersion (set through the library's build "
+                   "info) / GOOS / GOARCH (same-length rewrite of the metadata header of the library-written file, "
+                   "approved in the upload config) or are equal to it (to be summed), with distinct counter values "
+                   "(10 j + r) and stack counters (names with a newline, 100 j + r; approved by their first line); "
+                   "optional leftover "
                    "local/ready/uploaded reports, stale lock, stray and future-dated *.json; start times at "
                    "end-1s, end, end+1ns, end+1s, days and >21 days later; mode on/local with and without an as-of "
                    "date) and 1-3 real uploader.Run calls executed as threads of the deterministic scheduler, one "
@@ -20,9 +27,27 @@ SPEC = {
                    "scratch copy): sequential runs (Run; Run), random and bounded-context-switch interleavings, and "
                    "the scripted three-uploader race; thorough tier adds the sweeps: uploader A runs i = 0..35 calls, then B to "
                    "completion, then A, and A i calls / B j calls / rest, over a 9x9 grid. After every step local/ and upload/ (names, content classes, "
-                   "report JSON canonicalised to per-program counter sums) and the server log are compared with the "
+                   "report JSON parsed and sent per program entry: id of the full five-field identity, then (id, value) "
+                   "of every entry of Counters and of Stacks - a stack name in Counters or a counter name in Stacks gets "
+                   "the id 777777, an identity that no count file has the id 999999, two entries of one identity stay "
+                   "two entries) and the server log are compared with the "
                    "model run on the same schedule; the C07 oracles are evaluated on the implementation's "
-                   "observations. distinct = distinct case lines, all non-trivial"),
+                   "observations; oracle week_reports_ok (Model/Uploader.v, extracted): the program entries of a "
+                   "local report written by a run = the grouping of the week's folded count files by the FULL "
+                   "five-field identity, each value the sum over exactly that group's files (class wrong_report). "
+                   "distinct = distinct case lines, all non-trivial"),
+        # the deletion clause under failed report writes: the fault suite of C05 (uploader half), same harness
+        # mode, runner and oracles; PROP classes deleted-without-report, counts-lost, counts-duplicated,
+        # active-file-touched are C07's clauses observed on a run with injected faults
+        Suite(name="fault-upload", harness="vh_upload", runner="uploadf",
+              model_deps=["theories/Model/Uploader.vo", "theories/Model/UploaderFault.vo"],
+              quick_n=1000, thorough_n=6000, rewrite=rewrite_upload_fault, tags="verif", extra_args=["c05"],
+              rule="the suite fault-upload of C05 (see checks/C05.py for the generation rule): one real upload.Run per "
+                   "case on a generated directory under a fault plan (every single call index x error kind, short "
+                   "writes, Post failures); for C07 its oracles check the deletion clause when a report write FAILS: "
+                   "a count file is gone only if a report for its week exists (deleted-without-report), its counts are "
+                   "in a completely written local report (counts-lost), once (counts-duplicated), and active / "
+                   "unparseable files are untouched (active-file-touched). distinct = distinct case lines"),
     ],
     "technique": "Coq inductive invariants over all interleavings of any number of uploader runs (transition system at "
                  "file-system/HTTP-call granularity, run histories for the deletion clause, a phase invariant for the "
@@ -39,7 +64,13 @@ SPEC = {
                   "body never changes once written; every report body written folds in each count file at most once and "
                   "only expired files of its own week; once local.W.json exists and earlier runs have returned no later run "
                   "creates W.json or local.W.json again; with all uploaders in mode local the one local.W.json folds in ALL "
-                  "of the week's files expired for its author. The model is tied to the code by lock-step differential execution of "
+                  "of the week's files expired for its author. Program entries (C07_report_entries_by_identity, "
+                  "C07_report_values_local / _upload, C07_week_reports_ok_spec, C07_one_report_groups): the canonical body of a "
+                  "report has exactly one program entry per identity (id of the five fields Program, Version, GoVersion, "
+                  "GOOS, GOARCH) occurring among the files folded in, and every counter / stack value in it is the sum "
+                  "over exactly the files of that identity (upload version: over the approved names); after a complete "
+                  "sequential run local.W.json lists each of W's files once, so its entries group exactly W's files. "
+                  "The model is tied to the code by lock-step differential execution of "
                   "the extracted model against the real uploader whose 'os'/'net/http' imports are rewritten to yielding shims.",
     "level_note": "REFUTED clause (kept as C07_concurrent_whole_week_refuted + known finding subset_report): with three "
                   "concurrent uploaders in mode on, local.W.json can fold in a strict subset of the week's files; the positive "
@@ -50,9 +81,12 @@ SPEC = {
                   "contain W as a substring; C07_one_report_per_week_dates discharges it when the week strings are ten bytes long (years 0..9999, "
                   "proved in C09's date_roundtrip, not re-imported here). Count-file "
                   "contents are abstract (result of counter.Parse + span extraction: begin, end, program identity, counters); "
-                  "report bodies are abstract (week, lastWeek, filtered?, list of count files folded, author); per-program "
-                  "sums and the upload filter are C01's subject and appear only in the correspondence (canonical sums, every "
-                  "build approved, a random subset of counters approved, sample rate 0). TimeEnd is assumed UTC (library "
+                  "report bodies are abstract (week, lastWeek, filtered?, list of count files folded, author); the program "
+                  "identity of a count file is an id of its five-field tuple (assigned by the harness from the parsed "
+                  "metadata: findProgReport's field-by-field comparison is checked by the suite, not modelled); the "
+                  "canonical per-identity sums are proved to group by that id (Proofs/UploaderSums.v); the upload filter's "
+                  "program / version / platform tests are C01's subject and appear only in the correspondence (every "
+                  "build approved, a random subset of counters and stacks approved, sample rate 0). TimeEnd is assumed UTC (library "
                   "written files). Trusted: Coq kernel+VM, extraction, OCaml glue, Go harness, shims vos/vhttp/vsched.",
     "assumptions": [
         "os calls of internal/upload are atomic at the granularity of one call (the model's step); a directory listing is a snapshot",
@@ -60,9 +94,12 @@ SPEC = {
         "count files carry UTC end times (the week string is the UTC date of the end instant)",
         "upload config: sample rate 0 and rate 1 per counter in the suite (the random X never gates); the X of a report stands for its author",
         "time.Time.Format/Parse behave as Lib/Calendar models them (C09)",
-        "no file-system faults other than not-exist / exists",
+        "no file-system faults other than not-exist / exists in the theorems of Props/C07.v; the deletion clause under "
+        "injected faults is C05's (C05_fault_delete_only_after_report, C05_fault_keeps_or_drops) and is sampled here by the "
+        "second suite",
     ],
     "trusted_base": [],
     "own_objects": ["theories/Props/C07.vo", "theories/Proofs/UploaderSeq.vo", "theories/Proofs/UploaderEver.vo",
-                    "theories/Proofs/UploaderData.vo", "theories/Proofs/UploaderFiles.vo", "theories/Proofs/UploaderIdem.vo", "theories/Proofs/UploaderNoDup.vo", "theories/Proofs/UploaderLocal.vo", "theories/Proofs/UploaderDates.vo"],
+                    "theories/Proofs/UploaderData.vo", "theories/Proofs/UploaderFiles.vo", "theories/Proofs/UploaderIdem.vo", "theories/Proofs/UploaderNoDup.vo", "theories/Proofs/UploaderLocal.vo", "theories/Proofs/UploaderDates.vo",
+                    "theories/Proofs/UploaderSums.vo", "theories/Proofs/UploaderGroups.vo"],
 }
